@@ -217,6 +217,8 @@ func BuildMetrics(prefix string, sh Shape) (pmetric.Metrics, []string) {
 				m.SetName("metric-" + ms.Key)
 				m.SetDescription("desc-" + ms.Key)
 				m.SetUnit("unit-" + ms.Key)
+				m.Metadata().PutStr("origin", "meta-"+ms.Key)
+				m.Metadata().PutInt("rev", int64(len(ms.Key)))
 				switch ms.Type {
 				case pmetric.MetricTypeGauge:
 					g := m.SetEmptyGauge()
@@ -273,7 +275,7 @@ func BuildMetrics(prefix string, sh Shape) (pmetric.Metrics, []string) {
 }
 
 func canonMetricDesc(m pmetric.Metric) string {
-	d := fmt.Sprintf("metric(name=%q,desc=%q,unit=%q,type=%s", m.Name(), m.Description(), m.Unit(), m.Type().String())
+	d := fmt.Sprintf("metric(name=%q,desc=%q,unit=%q,type=%s,metadata=%s", m.Name(), m.Description(), m.Unit(), m.Type().String(), canonMap(m.Metadata()))
 	switch m.Type() {
 	case pmetric.MetricTypeSum:
 		d += fmt.Sprintf(",temp=%d,mono=%v", m.Sum().AggregationTemporality(), m.Sum().IsMonotonic())
